@@ -265,6 +265,7 @@ class Scratch:
         for d in self.DIRS:
             os.makedirs(os.path.join(self.root, d))
         self.cwd = "a"
+        self._home = os.environ.get("HOME")
         os.chdir(self.dir("a"))
 
     def dir(self, d):
@@ -292,6 +293,16 @@ class Scratch:
             from pathlib import Path
 
             return Path(os.path.relpath(ab, self.dir(self.cwd)))
+        if style == "dirlink":
+            # <root>/dl-<d> -> <root>/a/sub ;  spell the file as  <root>/dl/../../<d>/<name>  ('..' after a directory link)
+            dl = os.path.join(self.root, "dlink")
+            if not os.path.lexists(dl):
+                os.symlink(self.dir("a/sub"), dl)
+            return os.path.join(dl, "..", "..", d, name)
+        if style == "home":
+            # '~' refers to $HOME, which the scenario points at the scratch root for the duration of the run
+            os.environ["HOME"] = self.root
+            return os.path.join("~", d, name)
         if style == "link":
             # a symbolic link (in another directory of the tree) that points at the file
             self.n_links = getattr(self, "n_links", 0) + 1
@@ -303,6 +314,8 @@ class Scratch:
         raise HarnessError(style)
 
     def cleanup(self):
+        if self._home is not None:
+            os.environ["HOME"] = self._home
         try:
             os.chdir(self.base)
         except OSError:
